@@ -483,3 +483,100 @@ def scan_is_read_only():
     out.append({"name": "structural::C10::fix_only_reachability", "ok": ok_graph and ok_guard and only_caller, "info": scan_is_read_only.__doc__,
                 "detail": f"functions above the write sites: {sorted(seen)}; public: {pub}; leaks: {leak}; guarded call: {ok_guard}; callers of __fix_specific_file: {callers.get(entry)}"})
     return out
+
+
+# ------------------------------------------------------------------------------------------------ C16: diagnostics do not interfere
+LOG_METHODS = {"debug", "info", "warning", "error", "critical", "exception", "log"}
+
+
+def pogger_nonliteral_sites():
+    out = {}
+    n = 0
+    for rel, full in py_files():
+        tree = parse(full)
+        for q, fn in list(enclosing_functions(tree)):
+            for node in ast.walk(fn):
+                if isinstance(node, ast.Call) and isinstance(node.func, ast.Attribute) and node.func.attr in LOG_METHODS \
+                        and isinstance(node.func.value, ast.Name) and node.func.value.id == "POGGER":
+                    n += 1
+                    fmt = node.args[0] if node.args else None
+                    ok = isinstance(fmt, ast.Constant) and isinstance(fmt.value, str)
+                    if not ok and isinstance(fmt, ast.JoinedStr) and not any(isinstance(v, ast.FormattedValue) for v in fmt.values):
+                        ok = True
+                    if not ok:
+                        out.setdefault((rel, q), []).append(node.lineno)
+    return out, n
+
+
+@check("C16", "C15")
+def logging_format_strings_are_literals():
+    """every POGGER.<level>(fmt, ...) call has a string LITERAL as its format: ParserLogger substitutes `$` placeholders in the format,
+    so document text interpolated into the format (f-string, +, %) makes the call raise when the level is enabled and the text
+    contains `$` - the log level would then change the outcome of the run.  (This also backs the extraction rule that drops
+    logging calls: a literal format cannot fail.)  One obligation per function that logs."""
+    sites, n = pogger_nonliteral_sites()
+    out = [{"name": "structural::C16::pogger_literal_formats[total]", "ok": n > 0, "info": logging_format_strings_are_literals.__doc__, "detail": f"{n} POGGER calls inspected"}]
+    for (rel, q), lines in sorted(sites.items()):
+        out.append({"name": f"structural::C16::pogger_literal_formats[{rel}::{q}]", "ok": False, "info": logging_format_strings_are_literals.__doc__,
+                    "detail": f"non-literal format at lines {lines}", "path": [f"{rel}::{q}"]})
+    return out
+
+
+@check("C16")
+def stack_trace_flag_only_feeds_messages():
+    """the --stack-trace flag (show_stack_trace) is only ever (a) passed on / stored, or (b) used to choose what goes INTO an error
+    message (actual_token / actual_line / extended information / traceback text): no control flow that affects scanning,
+    fixing or the exit category depends on it"""
+    message_targets = {"actual_token", "actual_line", "stack_trace", "show_extended_information"}
+    bad = []
+    n = 0
+    for rel, full in py_files():
+        if rel.endswith("application_logging.py"):
+            continue  # the logging subsystem itself: the flag only selects the default log level there (diagnostics)
+        tree = parse(full)
+        parents = {}
+        for p_ in ast.walk(tree):
+            for ch in ast.iter_child_nodes(p_):
+                parents[ch] = p_
+        for node in ast.walk(tree):
+            is_flag = (isinstance(node, ast.Attribute) and node.attr.endswith("show_stack_trace") and isinstance(node.ctx, ast.Load)) or \
+                      (isinstance(node, ast.Name) and node.id == "show_stack_trace" and isinstance(node.ctx, ast.Load))
+            if not is_flag:
+                continue
+            n += 1
+            # climb to the enclosing statement
+            cur = node
+            ok = False
+            while cur in parents:
+                par = parents[cur]
+                if isinstance(par, ast.Call) and cur in par.args + [k.value for k in par.keywords]:
+                    ok = True   # passed on as an argument
+                    break
+                if isinstance(par, ast.keyword):
+                    ok = True   # keyword argument of a call: passed on
+                    break
+                if isinstance(par, ast.IfExp) and (cur is par.test or cur in ast.walk(par.test)):
+                    stmt = par
+                    while stmt in parents and not isinstance(stmt, (ast.Assign, ast.AnnAssign)):
+                        stmt = parents[stmt]
+                    if isinstance(stmt, ast.Assign) and all(isinstance(t, ast.Name) and t.id in message_targets for t in stmt.targets):
+                        ok = True
+                    break
+                if isinstance(par, (ast.Assign, ast.AnnAssign)):
+                    tg = par.targets if isinstance(par, ast.Assign) else [par.target]
+                    names = [ast.unparse(t) for t in tg]
+                    ok = all(nm.endswith("show_stack_trace") or nm in message_targets or "show_stack_trace" in nm for nm in names) or \
+                        any("show_stack_trace" in ast.unparse(e) for t in tg if isinstance(t, ast.Tuple) for e in t.elts)
+                    break
+                if isinstance(par, (ast.If, ast.While)) and cur is par.test:
+                    # `if not self.__show_stack_trace and self.__properties:` in main only re-reads the flag from configuration
+                    body_src = " ".join(ast.unparse(b) for b in par.body)
+                    ok = "show_stack_trace" in body_src and all(isinstance(b, ast.Assign) for b in par.body)
+                    break
+                if isinstance(par, ast.stmt):
+                    break
+                cur = par
+            if not ok:
+                bad.append((rel, node.lineno, ast.unparse(parents.get(node, node))[:80]))
+    return [{"name": "structural::C16::stack_trace_only_in_messages", "ok": not bad and n > 0, "info": stack_trace_flag_only_feeds_messages.__doc__,
+             "detail": f"{n} reads of the flag; not message-only: {bad}"}]
